@@ -345,3 +345,13 @@ def r5(ctx: Ctx) -> None:
     if not ok:
         ctx.report(f.where, "ring-not-closed", "the inside test does not visit the closing edge (last vertex -> first vertex): for an open vertex list cells next to that edge "
                    "are classified wrongly and the decomposition has the wrong area or is refused", lineno=f.node.lineno)
+
+
+@rule("C15", "R6.recognised-as-orthogon", "SHARED(C06)",
+      "a decomposition loaded as a module is recognised as a single-trunk orthogon with the trunk first: the recognition "
+      "rules of C06 (every rectangle tried as trunk by identity, the same predicate for all, pruning only after a valid "
+      "trunk, trunk swapped to the front, sides from find_location) evaluated for the converter's output", floor=8)
+def r6(ctx: Ctx) -> None:
+    from . import C06 as _c06
+    from .common import support
+    support(ctx, [_c06.r1, _c06.r2, _c06.r5, _c06.r6, _c06.r7], {"create_stog", "Rectangle.find_location", "Module.create_stog", "Module.has_stog"})
